@@ -48,6 +48,12 @@ CHECKS = {
             "an idempotent permutation that keeps unmentioned rows in place; on the fixture corpus with the shipped *.order files, deleting an unrelated top-level row must not "
             "change the relative order of the remaining commands.",
             "Trusted: R6 (vf/ref/order.py), R1, R2. Removal = row starts with the negation word. Ties inside one rank are not judged. Two known findings listed.", "4/C08"),
+    "C09": ("relational monitor between three real views of one patch (shown text, cmd_paths, CommandList sent) + session-wrapper rules + reference deploy-rule chain R7 + production job composition",
+            "For PatchTrees produced by the real make_patch, synthetic ones and the fixture corpus, across block-structured vendors, hardware families and the four (commit, finalize) "
+            "settings, the run observes formatter.patch, formatter.cmd_paths and apply_deploy_rulebook and requires line-by-line agreement (order, depth, block exits), a contiguous body, "
+            "a wrapper obeying the session rules, and per-command timeout/dialogs equal to the matching rule chain of generated deploy rulebooks; CliDeployerJob.parse_result is driven "
+            "with a harness driver to check that what it shows is what it sends.",
+            "Trusted: R7 (vf/ref/deploy.py), the wrapper rule table. Trees with duplicate sibling rows are outside the stated domain (counted, not judged).", "4/C09"),
     "C12": ("offline history checker (conservation / exactly-once / payload identity / termination) over recorded pool histories under a parameter grid and sys.monitoring delay injection",
             "Each pool run executes the real Parallel.irun/run with real forked workers in its own subprocess; submit/start/done/reap/deliver/end events are "
             "logged through an O_APPEND log and checked offline: every submitted id delivered exactly once with the value (or failure) its task produced, "
